@@ -119,7 +119,7 @@ def _distinct(trace, pred, key=lambda r: json.dumps([r.get("case"), r.get("conc"
 
 def check_C16(ctx):
     t = ctx.tier
-    res = run_family(ctx, "runtimedoc", "MC_RuntimeDoc", ["RuntimeDoc_gen_%s.cfg" % t], "RuntimeDocTrace", shard=3000, exec_timeout=5400)
+    res = run_family(ctx, "runtimedoc", "MC_RuntimeDoc", ["RuntimeDoc_gen_%s.cfg" % t], "RuntimeDocTrace", rand_n=300 if ctx.quick() else 5000, shard=3000, exec_timeout=5400)
     fails = vlib.collect_failures(res["trace"], res["bad"], "runtimedoc", only_prefix="C16")
     tr = res["trace"]
     cov = {
@@ -137,7 +137,7 @@ def check_C16(ctx):
     }
     return vlib.finish(ctx, "exploration", cov, [
         "the Go compiler and the compiled probe program are the oracle for 'compiles' and 'returns'; the specification computes the expected answers from the source lines the harness wrote",
-        "canonical comment text (no leading / trailing blanks); blank doc lines only in the interior of a comment group; field docs do not start with the field's name; embedded fields carry no doc and are exported covered structs",
+        "canonical comment text (no leading / trailing blanks); blank doc lines only in the interior of a comment group and of its non-tag lines, never doubled; field docs do not start with the field's name; embedded fields carry no doc and are exported covered structs",
         "[[embed]] doc references are not generated",
     ], fails)
 
